@@ -330,6 +330,23 @@ def gen_decode_families(g, tier, verb="dec", ctxs=None, proc_buf=None):
             q = list(p)
             q[i // 8] ^= 0x80 >> (i % 8)
             emit(q, "bitflip")
+    # PEC computed over the wrong range: last byte = CRC of a proper prefix / of the bytes from offset 1
+    for n in (12, 20, 100, 258, 259, 260, 261, 262, 300, 400):
+        for t in (0x7E, 0x05, 0x00):
+            body = ctrl_req(r.choice([2, 3, 5]), g.rbytes(max(0, n - 12))) if t == 0 else g.rbytes(max(0, n - 10))
+            p = forge(0x10, 0x20, 0x10, 0x20, t, body)
+            L = len(p)
+            for k in sorted(set([L - 2, L - 3, L // 2, 255, 256, 257, 258, 259, 260, 8, 9])):
+                if 0 < k < L - 1:
+                    q = list(p)
+                    q[-1] = crc8(q[:k])
+                    emit(q, "pec-of-prefix")
+            q = list(p)
+            q[-1] = crc8(q[1:-1])
+            emit(q, "pec-from-offset1")
+            q = list(p)
+            q[-1] = crc8(q)            # PEC over the packet including the (old) PEC position
+            emit(q, "pec-incl-last")
     # truncations and extensions
     for p, lab in vp:
         for k in range(0, len(p)):
@@ -426,14 +443,18 @@ def gen_history(g, nops, cid, cfg, fam, eid_pool=None):
     r = g.r
     addr, types, vendors = cfg
     nv = len(vendors)
+    recent = []
     for _ in range(nops):
         k = r.random()
         src7 = r.randrange(128)
         src_eid = r.choice([src7, r.randrange(256)])
         if k < 0.22:
             e = r.choice(eid_pool) if eid_pool else r.randrange(1, 255)
+            if recent and r.random() < 0.4:
+                e = r.choice(recent)      # the same value an accessor (or an earlier request) stored
             op = r.choice([0, 1, 0, 1, 3])
             p = forge(addr & 0x7F, src7, r.randrange(256), src_eid, 0, ctrl_req(1, [op, e], iid=r.randrange(32)))
+            recent.append(e)
             kind = "hist:seteid"
         elif k < 0.40:
             body, lab = r.choice(answerable_requests(g, nv, [r.randrange(1, 255)]))
@@ -468,6 +489,7 @@ def gen_history(g, nops, cid, cfg, fam, eid_pool=None):
         elif k < 0.80:
             e = r.randrange(256)
             which = r.choice(["req", "resp"])
+            recent.append(e)
             g.add("seteid %s %s %s" % (cid, which, hb(e)), fam + "|hist:accessor")
             continue
         elif k < 0.84:
@@ -489,6 +511,24 @@ def gen_history(g, nops, cid, cfg, fam, eid_pool=None):
             g.add("proc %s %s %s" % (cid, hx(q), hx(g.buf(64))), fam + "|hist:geteid")
 
 
+def gen_responses(g, tier):
+    """responses written by process_packet are encoded packets too (C03, C04, C05): answerable
+    requests with every instance id, before and after an EID was assigned"""
+    r = g.r
+    for (addr, types, vendors) in [(0x23, [0x7E], [(0, 0x1234, 0xAB)]), (0xE1, g.rbytes(7), g.rand_vendors(3))]:
+        cid = g.ctx(addr, types, vendors)
+        for rnd_ in range(2):
+            for body, lab in answerable_requests(g, len(vendors), [0x56, 0xFE, 0x01]):
+                for iid in (range(32) if tier == "thorough" else (0, 1, 5, 0x1F, r.randrange(32))):
+                    b = list(body)
+                    b[0] = (b[0] & 0xE0) | iid
+                    src = r.randrange(128)
+                    p = forge(addr & 0x7F, src, r.randrange(256), r.choice([src, r.randrange(256)]), 0, b)
+                    g.add("proc %s %s %s" % (cid, hx(p), hx(g.buf(64 + r.randrange(6)))), "response:" + lab)
+            g.add("seteid %s resp %s" % (cid, hb(0x40 + rnd_)), "setup")
+            g.add("seteid %s req %s" % (cid, hb(0x50 + rnd_)), "setup")
+
+
 # ----------------------------------------------------------------------------- per property
 
 
@@ -499,6 +539,8 @@ def gen_for(prop, tier, seed):
     if prop in ("C03", "C05", "C06", "C07", "C08"):
         gen_encoders(g, tier, "sweep" if prop in ("C05",) else "few")
         gen_sizes(g, tier)
+        if prop in ("C03", "C05"):
+            gen_responses(g, tier)
         if prop == "C08":
             cid = g.ctx(0x44, [], [(0, 1, 1)])
             ids = range(65536) if T else list(range(0, 65536, 17)) + [0x1414, 0x00FF, 0xFF00, 0xFFFF, 0x0100, 0x0001]
@@ -512,6 +554,7 @@ def gen_for(prop, tier, seed):
     elif prop == "C04":
         gen_encoders(g, tier, "sweep")
         gen_sizes(g, tier)
+        gen_responses(g, tier)
         # all 128 x 128 address pairs for one encoder (thorough: three)
         for name, args in ([("reqGetEid", "")] + ([("respVersion", "00 "), ("genPci", "none 0102 ")] if T else [])):
             for src in range(128):
@@ -525,7 +568,7 @@ def gen_for(prop, tier, seed):
         for e in (0x00, 0x01, 0xFE, 0xFF):
             for op in range(4):
                 g.add("enc %s 22 reqSetEid %s %s %s" % (cid, hb(op), hb(e), hx(g.buf(20))), "boundary:eid")
-        for n in (6, 7, 8, 9, 63, 64, 65):
+        for n in (6, 7, 8, 9, 63, 64, 65, 255, 256, 257, 262, 263, 264, 512, 519):
             g.add("enc %s 22 reqRouting %s %s" % (cid, hx(g.rbytes(4 * n)), hx(g.buf(4 * n + 20))), "boundary:routing")
         for n in (29, 30, 31, 32, 255, 256, 300):
             g.add("enc %s 22 respMsgTypes 00 %s %s" % (cid, hx(g.rbytes(n)), hx(g.buf(n + 20))), "boundary:types")
@@ -545,6 +588,10 @@ def gen_for(prop, tier, seed):
         for n in range(0, 8):
             for _ in range(8):
                 g.add("len %s" % hx(g.rbytes(n)), "len-random")
+        for v in range(256):
+            g.add("len %s" % hx([g.rb(), 0x0F, v]), "len-count")
+            g.add("len %s" % hx([g.rb(), v, g.rb()] + g.rbytes(r.randrange(3))), "len-command")
+            g.add("len %s" % hx([v, 0x0F, r.choice([0, 0xFB, 0xFC, 0xFF])] + g.rbytes(2)), "len-addr")
         # every selector / operation value on a validly configured context
         cid = g.ctx(0x42, [0x7E, 0x7F], g.rand_vendors(3))
         for v in range(256):
@@ -631,8 +678,14 @@ def gen_for(prop, tier, seed):
                 for cmd, data in ((5, []), (3, []), (4, [r.choice(VERSION_Q)])):
                     p = forge(addr & 0x7F, 0x19, addr, 0x19, 0, ctrl_req(cmd, data, iid=r.randrange(32)))
                     g.add("proc %s %s %s" % (cid, hx(p), hx(g.buf(64))), "identity:cmd%d" % cmd)
-                g.add("setuuid %s %s" % (cid, hx(g.rbytes(16))), "identity:setuuid")
+                u = g.rbytes(16) if r.random() < 0.8 else [0] * 16
+                g.add("setuuid %s %s" % (cid, hx(u)), "identity:setuuid")
+                p = forge(addr & 0x7F, 0x19, addr, 0x19, 0, ctrl_req(3, [], iid=r.randrange(32)))
+                g.add("proc %s %s %s" % (cid, hx(p), hx(g.buf(64))), "identity:uuid-after-set")
                 gen_history(g, r.randrange(0, 12 if T else 5), cid, (addr, types, vendors), "identity-traffic")
+            for cmd, data in ((5, []), (3, []), (4, [0xFF])):
+                p = forge(addr & 0x7F, 0x19, addr, 0x19, 0, ctrl_req(cmd, data, iid=r.randrange(32)))
+                g.add("proc %s %s %s" % (cid, hx(p), hx(g.buf(64))), "identity:final-cmd%d" % cmd)
     elif prop == "C17":
         for b0 in ((0x00, 0x46, 0xFF, g.rb()) if not T else (0x00, 0x46, 0xFF, g.rb(), g.rb(), 0x0F)):
             for b1 in range(256):
